@@ -881,7 +881,7 @@ def _kind_of(walk):
 
 
 def comparable_routes(walk):
-    """(container, has formatting ops, entry, option set) of the compiles that share their option set with a compile
+    """(container, formatting ops, entry, option set) of the compiles that share their option set with a compile
     through a different presentation or entry point."""
     groups = {}
     for e in walk_events(_kind_of(walk), walk, walk["opts"]):
@@ -890,7 +890,7 @@ def comparable_routes(walk):
     out = set()
     for o, v in groups.items():
         if len(v) > 1:
-            out |= {(c, bool(var), entry, o) for c, var, entry in v}
+            out |= {(c, tuple(sorted(var)), entry, o) for c, var, entry in v}
     return out
 
 
@@ -899,11 +899,66 @@ def nontrivial(walk):
     return bool(comparable_routes(walk))
 
 
-def pick_walks(rng, pool, k):
-    """Seeded stratified sample: each pick is drawn (uniformly) from 200 random candidates among those that add the
-    most not-yet-covered comparable routes, so that few walks per design still cover containers x entry points."""
+def comparable_groups(walk):
+    """option set -> set of (container, ops, entry) compiled with it, for groups of at least two."""
+    groups = {}
+    for e in walk_events(_kind_of(walk), walk, walk["opts"]):
+        if e[0] == "C":
+            groups.setdefault(e[4], set()).add((e[1], tuple(sorted(e[2])), e[3]))
+    return {o: v for o, v in groups.items() if len(v) > 1}
+
+
+def _spans(a, b):
+    """goal: one option set is compiled through a route satisfying a and through one satisfying b"""
+    return lambda o, g: any(a(r) for r in g) and any(b(r) for r in g)
+
+
+def route_goals(cls):
+    """Comparisons every design class should see: (goals tried first, goals tried in seeded order); predicates over
+    (option set, group of (container, ops, entry) compiled with it)."""
+    fixed = []
+    plain_file = lambda r: r[0] == "file" and not r[1]
+    plain_ufo = lambda r: r[0] == "ufo" and not r[1]
+    if cls.startswith("g"):
+        goals = [_spans(lambda r: r[0] == "memory", lambda r: r[0] == "file"),
+                 _spans(lambda r: r[0] == "package", lambda r: r[0] == "file"),
+                 _spans(lambda r: r[0] == "package" and r[2] == "cli", lambda r: r[0] != "package" and r[2] == "lib"),
+                 _spans(lambda r: r[0] == "file" and r[1], plain_file),
+                 _spans(lambda r: r[2] == "cli", lambda r: r[2] == "lib")]
+        if cls == "gb":
+            fixed = [_spans(lambda r: r[0] == "bundle", lambda r: r[0] == "file")]
+        if cls == "gi":
+            # the documented exception needs a compile that really reads the features
+            fixed = [lambda o, g: o != "noprod" and _spans(lambda r: r[0] == "memory", lambda r: r[0] == "file")(o, g)]
+    else:
+        goals = [_spans(lambda r: r[0] == "ds", lambda r: r[0] == "ufo"),
+                 _spans(lambda r: r[0] == "dslib", lambda r: r[0] == "ufo"),
+                 _spans(lambda r: r[0] == "dslib", lambda r: r[0] == "ds"),
+                 _spans(lambda r: r[0] == "ufo" and r[1], plain_ufo),
+                 _spans(lambda r: r[2] == "cli", lambda r: r[2] == "lib")]
+    return fixed, goals
+
+
+def pick_walks(rng, pool, k, goals=()):
+    """Seeded stratified sample. First the route goals of the class (in seeded order; one walk per goal not yet
+    met), then each pick is drawn uniformly from the candidates (200 random ones) that add the most not-yet-covered
+    comparable routes, so that few walks per design still cover containers x entry points x formatting x options."""
     picked, covered = [], set()
-    for _ in range(min(k, len(pool))):
+    fixed, rest = goals if goals else ([], [])
+    rest = rng.sample(rest, len(rest))
+    goals = list(fixed) + rest
+    met = lambda g, ws: any(g(o, grp) for w in ws for o, grp in comparable_groups(w).items())
+    for g in goals:
+        if len(picked) >= min(k, len(pool)):
+            break
+        if met(g, picked):
+            continue
+        cands = [w for w in rng.sample(pool, min(1500, len(pool))) if met(g, [w])]
+        if cands:
+            w = rng.choice(cands)
+            picked.append(w)
+            covered |= comparable_routes(w)
+    while len(picked) < min(k, len(pool)):
         cands = rng.sample(pool, min(200, len(pool)))
         best = max(len(comparable_routes(w) - covered) for w in cands)
         w = rng.choice([w for w in cands if len(comparable_routes(w) - covered) == best])
@@ -925,7 +980,7 @@ def generate_walks(ctx):
     import concurrent.futures
     quick = ctx.quick
     # -simulate num=N with 2 workers explores 2N behaviours; every state reached at depth MaxLen is one walk
-    n_sim = 40 if quick else 400
+    n_sim = 25 if quick else 400
     with concurrent.futures.ThreadPoolExecutor(2) as ex:
         fr = ex.submit(common.run_tlc, ctx, "Routes", "RoutesGen.cfg" if quick else "RoutesGenThorough.cfg",
                        workers=2, timeout=600 if quick else 1500, xmx="6g", tag="gen")
@@ -965,12 +1020,12 @@ def select_designs(ctx, glyphs, ufos, minis):
     by = {}
     for d in glyphs:
         by.setdefault(d["cls"], []).append(d)
-    chosen = rng.sample(by.get("g", []), min(12, len(by.get("g", []))))
-    chosen += rng.sample(by.get("gb", []), min(5, len(by.get("gb", []))))
+    chosen = rng.sample(by.get("g", []), min(10, len(by.get("g", []))))
+    chosen += rng.sample(by.get("gb", []), min(4, len(by.get("gb", []))))
     chosen += by.get("gi", [])
     uk = [d for d in ufos if d["cls"] == "uk"]
     u = [d for d in ufos if d["cls"] == "u"]
-    chosen += rng.sample(uk, min(2, len(uk))) + rng.sample(u, min(5, len(u)))
+    chosen += rng.sample(uk, min(2, len(uk))) + rng.sample(u, min(4, len(u)))
     chosen += minis
     return chosen
 
@@ -1000,7 +1055,7 @@ def main(ctx):
         design = next((d for d in glyphs + ufos + minis if d["id"] == rep["design"]), None)
         if design is None:
             raise common.ToolError("replay: unknown design %s" % rep["design"])
-        jobs = [(design, rep["walk"])]
+        jobs = [(design, w) for w in rep.get("walks", [rep["walk"]])]
         mc = None
     else:
         import threading
@@ -1025,7 +1080,7 @@ def main(ctx):
         for w in sim:
             if nontrivial(w):
                 walks.setdefault(w["class"], {"bfs": [], "sim": []})["sim"].append(w)
-        k_bfs, k_sim = (2, 1) if ctx.quick else (6, 2)
+        k_bfs, k_sim = (2, 1) if ctx.quick else (4, 1)
         rng = random.Random(ctx.seed * 104729 + 20)
         n_in_class = {}
         for d in designs:
@@ -1037,9 +1092,9 @@ def main(ctx):
                 raise common.ToolError("no walks for class %s" % d["cls"])
             # classes with very few designs (include-using Glyphs source, UFOs with UFO-only lib keys) get more walks
             rare = n_in_class[d["cls"]] <= 3
-            kb = k_bfs * 4 if rare else k_bfs
+            kb = k_bfs * 3 if rare else k_bfs
             ks = k_sim if (rare or not ctx.quick or dn % 3 == 0) else 0
-            pick = pick_walks(rng, ws["bfs"], kb) + pick_walks(rng, ws["sim"], ks)
+            pick = pick_walks(rng, ws["bfs"], kb, route_goals(d["cls"])) + pick_walks(rng, ws["sim"], ks)
             jobs += [(d, w) for w in pick]
         ev.extra["walks_generated"] = {"exhaustive": len(bfs), "random": len(sim),
                                        "nontrivial_by_class": {c: len(v["bfs"]) + len(v["sim"]) for c, v in walks.items()}}
@@ -1064,24 +1119,47 @@ def main(ctx):
     common.log("compiles done: %d ok, %d failing" % (sum(1 for r in runner.results.values() if r["res"] != "fail"),
                                                       sum(1 for r in runner.results.values() if r["res"] == "fail")))
 
-    # ---- record the observation traces
+    # ---- record the observation traces: ONE behaviour per design = its walks one after the other, joined by the
+    # Reformat / Repackage steps that lead back to the initial presentation (so that compiles of different walks of
+    # the same design are compared with each other as well)
     tr = ctx.path("traces.ndjson")
-    recs = []
+    recs = []          # (record, design, wes) ; wes[k] = (walk index, walk, event tuple) for event k
+    by_design = {}
+    for d, w in jobs:
+        by_design.setdefault(d["id"], (d, []))[1].append(w)
     with open(tr, "w") as f:
-        for n, (d, w) in enumerate(jobs, 1):
-            evs = []
-            for e in walk_events(d, w, w["opts"]):
-                if e[0] == "P":
-                    evs.append({"e": "P", "c": e[1], "v": sorted(e[2])})
-                else:
-                    r = runner.results[Runner.key(d, e[1], e[2], e[3], tuple(w["opts"][e[4]]))]
-                    evs.append({"e": "C", "entry": e[3], "opt": e[4], "res": r["res"], "kind": r["kind"]})
+        for n, (d, ws) in enumerate(by_design.values(), 1):
+            init = "file" if d["kind"] == "glyphs" else "ufo"
+            evs, wes = [], []
+            # the reference route (initial presentation, library, default options) opens the behaviour
+            ref = runner.results[Runner.key(d, init, (), "lib", ())]
+            evs.append({"e": "C", "entry": "lib", "opt": "default", "res": ref["res"], "kind": ref["kind"]})
+            wes.append((0, ws[0], ("C", init, frozenset(), "lib", "default")))
+            for wi, w in enumerate(ws):
+                c, v = init, frozenset()
+                for e in walk_events(d, w, w["opts"]):
+                    c, v = e[1], e[2]
+                    if e[0] == "P":
+                        evs.append({"e": "P", "c": c, "v": sorted(v)})
+                    else:
+                        r = runner.results[Runner.key(d, e[1], e[2], e[3], tuple(w["opts"][e[4]]))]
+                        evs.append({"e": "C", "entry": e[3], "opt": e[4], "res": r["res"], "kind": r["kind"]})
+                    wes.append((wi, w, e))
+                if wi + 1 < len(ws):
+                    for op in sorted(v):
+                        v = v - {op}
+                        evs.append({"e": "P", "c": c, "v": sorted(v)})
+                        wes.append((wi, w, ("P", c, v)))
+                    if c != init:
+                        c = init
+                        evs.append({"e": "P", "c": c, "v": []})
+                        wes.append((wi, w, ("P", c, v)))
             rec = {"i": n, "design": d["id"], "class": CLASS_REC[d["cls"]], "ev": evs}
-            recs.append((rec, d, w))
+            recs.append((rec, d, ws, wes))
             f.write(json.dumps(rec) + "\n")
 
     # ---- validate them against the spec
-    common.log("validating %d recorded walks against RoutesTrace.tla" % len(recs))
+    common.log("validating %d recorded walks (%d behaviours) against RoutesTrace.tla" % (len(jobs), len(recs)))
     t = common.run_tlc(ctx, "RoutesTrace", "RoutesTrace.cfg", workers=1, timeout=1500, deque=True, xmx="6g",
                        env={"TRACE": tr}, tag="trace")
     if t.timed_out:
@@ -1096,36 +1174,41 @@ def main(ctx):
     verdicts = {v["i"]: v["rej"] for v in common.replay_lines(t.out, marker="VERDICT")}
 
     ref_ok = {}
-    for rec, d, w in recs:
+    for rec, d, ws, wes in recs:
         ref = runner.results[Runner.key(d, "file" if d["kind"] == "glyphs" else "ufo", (), "lib", ())]
         ref_ok[d["id"]] = ref["res"] != "fail"
         rej = verdicts.get(rec["i"], [])
         hard = [x for x in rej if x[0].startswith("H:")]
         if hard:
-            raise common.ToolError("recorded walk %d of %s is not a behaviour of Routes.tla: %s" % (rec["i"], d["id"], hard))
-        if not any(x[0] in PROPERTY_REASONS for x in rej):
-            ev.traces += 1
+            raise common.ToolError("recorded behaviour of %s is not a behaviour of Routes.tla: %s" % (d["id"], hard))
+        bad_walks = {wes[k - 1][0] for reason, k in rej if reason in PROPERTY_REASONS}
+        ev.traces += len(ws) - len(bad_walks)
         if ref_ok[d["id"]]:
-            ev.nontrivial_add("%s:%s" % (d["id"], json.dumps(w["steps"], sort_keys=True)))
+            for w in ws:
+                ev.nontrivial_add("%s:%s" % (d["id"], json.dumps(w["steps"], sort_keys=True)))
         for reason, k in rej:
             cur = rec["ev"][k - 1]
             if reason in INTERNAL_REASONS:
-                ctx.drift("Routes", "%s: %s at event %d of walk %s (observed kind=%r res=%s)" % (
-                    d["id"], reason, k, json.dumps(w["steps"]), cur.get("kind"), cur.get("res")[:20]))
+                ctx.drift("Routes", "%s: %s at event %d (walk %s; observed kind=%r res=%s)" % (
+                    d["id"], reason, k, json.dumps(wes[k - 1][1]["steps"]), cur.get("kind"), cur.get("res")[:20]))
                 continue
             if reason not in PROPERTY_REASONS:
                 raise common.ToolError("unknown verdict %s" % reason)
-            report(ctx, runner, rec, d, w, k)
-    if ev.traces:
-        good = next(((rec, d, w) for rec, d, w in recs if rec["i"] not in verdicts and ref_ok[d["id"]]), recs[0])
-        ev.sample({"kind": "validated walk", "design": good[1]["id"], "class": good[1]["cls"], "events": good[0]["ev"]})
-    n_lim = sum(1 for rec, d, w in recs for e, we in zip(rec["ev"], walk_events(d, w, w["opts"]))
-                if e["e"] == "C" and d["cls"] == "gi" and we[1] == "memory" and e["res"] == "fail")
+            report(ctx, runner, rec, d, wes, k)
+    if not ctx.replay and sum(ref_ok.values()) * 2 < len(ref_ok):
+        raise common.ToolError("only %d of %d designs compile through the reference route: the comparison would be "
+                               "vacuous" % (sum(ref_ok.values()), len(ref_ok)))
+    good = next(((rec, d) for rec, d, ws, wes in recs if rec["i"] not in verdicts and ref_ok[d["id"]]), None)
+    if good:
+        ev.sample({"kind": "validated behaviour (first 12 events)", "design": good[1]["id"], "class": good[1]["cls"],
+                   "events": good[0]["ev"][:12]})
     ev.extra["documented_exception_hits"] = {
-        "memory_route_without_include_root_failed": n_lim,
+        "memory_route_without_include_root_failed": sum(
+            1 for rec, d, ws, wes in recs for e, we in zip(rec["ev"], wes)
+            if e["e"] == "C" and d["cls"] == "gi" and we[2][1] == "memory" and e["res"] == "fail"),
         "designspace_without_ufo_only_lib_keys_compiles": sum(
-            1 for rec, d, w in recs for e, we in zip(rec["ev"], walk_events(d, w, w["opts"]))
-            if e["e"] == "C" and d["cls"] == "uk" and we[1] == "ds")}
+            1 for rec, d, ws, wes in recs for e, we in zip(rec["ev"], wes)
+            if e["e"] == "C" and d["cls"] == "uk" and we[2][1] == "ds")}
     ev.extra["designs_whose_reference_route_fails"] = sorted(k for k, v in ref_ok.items() if not v)[:60]
     ev.extra["presentation_notes"] = sorted(presenter.notes)[:20]
     ev.extra["disagreements_by_signature"] = dict(sorted(ctx._c20_reported.items())[:60])
@@ -1183,16 +1266,15 @@ def pres_str(ev_c, we):
     return "%s[%s]/%s" % (we[1], "+".join(sorted(we[2])) or "base", we[3])
 
 
-def report(ctx, runner, rec, d, w, k):
+def report(ctx, runner, rec, d, wes, k):
     """Event k broke SameFont: find the earliest earlier compile it disagrees with and describe the pair."""
-    wes = walk_events(d, w, w["opts"])
-    cur, cur_we = rec["ev"][k - 1], wes[k - 1]
+    cur, (_wi, w, cur_we) = rec["ev"][k - 1], wes[k - 1]
     cls_of = lambda we: ("unrecognized" if we[1] == "misnamed" else
                          "noinclude" if we[1] == "memory" and d["cls"] == "gi" else
                          "dsnolib" if we[1] == "ds" and d["cls"] == "uk" else "main")
     other = None
     for j in range(k - 1):
-        e, we = rec["ev"][j], wes[j]
+        e, we = rec["ev"][j], wes[j][2]
         if e["e"] != "C" or e["opt"] != cur["opt"] or e["res"] == cur["res"]:
             continue
         ca, cb = cls_of(we), cls_of(cur_we)
@@ -1200,7 +1282,7 @@ def report(ctx, runner, rec, d, w, k):
             other = (e, we)
             break
     if other is None:
-        raise common.ToolError("SameFont verdict without a disagreeing pair (walk %d)" % rec["i"])
+        raise common.ToolError("SameFont verdict without a disagreeing pair (%s event %d)" % (d["id"], k))
     names = tuple(w["opts"][cur["opt"]])
     ra = runner.results[Runner.key(d, other[1][1], other[1][2], other[1][3], names)]
     rb = runner.results[Runner.key(d, cur_we[1], cur_we[2], cur_we[3], names)]
@@ -1222,6 +1304,7 @@ def report(ctx, runner, rec, d, w, k):
         bad = ra if ra["res"] == "fail" else rb
         how = "one route builds a font, the other fails (%s: %s)" % (bad["outcome"], bad["message"].strip()[-300:])
     what = ("design %s, options %s: %s and %s disagree — %s" % (d["id"], list(names) or "default", pa, pb, how))
-    ctx.violation(sig, what, dict(design=d["id"], walk=w, disagreeing=[pa, pb], sources=[ra["src"], rb["src"]],
+    ctx.violation(sig, what, dict(design=d["id"], walk=w, walks=list({id(t[1]): t[1] for t in wes}.values()),
+                                  disagreeing=[pa, pb], sources=[ra["src"], rb["src"]],
                                   results=[{k2: v for k2, v in r.items() if k2 != "out"} for r in (ra, rb)],
                                   replay_cmd="bin/check C20 --tier %s --replay <this file>" % ctx.tier))
